@@ -122,6 +122,16 @@ fn run_churn(spec: &Spec) -> (Duration, bool, String, bool) {
                 }
                 // connects and hangs up at once
                 "churn-connect-close" => {}
+                // announces a source nobody has seen before and hangs up (the limiter has met 17 000 addresses when
+                // the well-behaved client, one more new address, arrives)
+                "churn-many-sources" => {
+                    let src: SocketAddr = format!("10.{}.{}.{}:4000", 1 + i / 65_536, (i / 256) % 256, i % 256).parse().unwrap();
+                    let _ = c.send_raw(&proxy_v2(src, running.addr)).await;
+                    if i % 64 == 63 {
+                        // let the listener catch up now and then
+                        let _ = c.status_exchange(Duration::from_millis(500)).await;
+                    }
+                }
                 // a complete, well-behaved status exchange from changing sources
                 _ => {
                     if spec.proxy {
@@ -271,6 +281,7 @@ pub fn run(cli: Cli) -> ! {
     for (proxy, limiter, kind) in [(true, false, "churn-no-proxy-header"), (false, true, "churn-rate-limited"), (true, true, "churn-rate-limited"), (false, false, "churn-connect-close"), (true, false, "churn-connect-close"), (false, false, "churn-status"), (true, false, "churn-status")] {
         specs.push(Spec { proxy, limiter, stall: kind.into(), hostile: 0, login: false, churn: if thorough { 5000 } else { 1500 } });
     }
+    specs.push(Spec { proxy: true, limiter: true, stall: "churn-many-sources".into(), hostile: 0, login: false, churn: if thorough { 70_000 } else { 17_000 } });
     let max_ms = AtomicU64::new(0);
     let served_n = AtomicU64::new(0);
     let one = |s: &Spec| {
@@ -306,7 +317,7 @@ pub fn run(cli: Cli) -> ! {
     rep.set("slowest_served_ms", json!(max_ms.load(Ordering::Relaxed)));
     rep.set("bound_ms", json!(BOUND.as_millis() as u64));
     rep.set("exhaustive", json!(true));
-    rep.set("rule", json!("every stall point (silent after connect, 1 byte / half of the PROXY header, fewer bytes than any header, header complete, mid-frame, after handshake, after login start, after the encryption request, in configuration never echoing, slow garbage) x PROXY protocol on/off x limiter on/off x 1, 2, 9 (thorough: 40) hostile clients; crowds of 600 (thorough: 300, 1100, 3000) connections held open at four cheap stall points; 1500 (thorough: 5000) short-lived connections one after the other that end on each early exit (no PROXY header, refused by the limiter, hung up at once) or are served, before the well-behaved client comes; the well-behaved client has another effective address; each schedule is distinct"));
+    rep.set("rule", json!("every stall point (silent after connect, 1 byte / half of the PROXY header, fewer bytes than any header, header complete, mid-frame, after handshake, after login start, after the encryption request, in configuration never echoing, slow garbage) x PROXY protocol on/off x limiter on/off x 1, 2, 9 (thorough: 40) hostile clients; crowds of 600 (thorough: 300, 1100, 3000) connections held open at four cheap stall points; 1500 (thorough: 5000) short-lived connections one after the other that end on each early exit (no PROXY header, refused by the limiter, hung up at once) or are served, and 17 000 (70 000) connections that each announce a source never seen before, before the well-behaved client comes; the well-behaved client has another effective address; each schedule is distinct"));
     rep.sample(json!({"spec": specs[0]}));
     rep.sample(json!({"spec": specs[specs.len() - 1]}));
     rep.assume("real time on loopback: 'never' is a 2 s deadline where the correct behaviour takes a few milliseconds; OS scheduling of the sockets is not controlled");
